@@ -220,7 +220,7 @@ _amend("C19", "Proof (Lean 4): sm_least, trusted_needs_more_than_third, two_supe
 _amend("C19", "the float ceil and the real PeerSet are tied to the generated definitions exhaustively for n=0..100000.",
        "the float ceil and the real PeerSet are tied to the generated definitions exhaustively for n=0..100000; the decisions that use the thresholds are exercised by hashgraphs built against the fame election (split votes, coin rounds, counts of exactly the supermajority, a decider delivered late) on several real nodes, which must decide the same fame and deliver the same blocks.")
 _amend("C03", "and fame does not depend on the decider.",
-       "and fame does not depend on the decider. On the operational model (any validator-set behaviour): whatever round, witness flag, Lamport timestamp, round received or fame an event has at some moment of an insertion history, it has after every continuation (assigned_values_are_final, fame_decisions_are_final); every stored event has a round, and it is at least the round of each parent (rounds_never_decrease_along_parents); a stored witness has a round strictly above its self-parent's (witness_round_above_self_parent).")
+       "and fame does not depend on the decider. On the operational model (any validator-set behaviour): whatever round, witness flag, Lamport timestamp, round received or fame an event has at some moment of an insertion history, it has after every continuation (assigned_values_are_final, fame_decisions_are_final); every stored event has a round, and it is at least the round of each parent (rounds_never_decrease_along_parents); a stored witness has a round strictly above its self-parent's (witness_round_above_self_parent), and two stored witnesses of one creator in one round are the same event (one_witness_per_creator_and_round).")
 _amend("C06", "ProcessDecidedRounds consumes a decided round at the head of the queue.",
        "ProcessDecidedRounds consumes a decided round at the head of the queue; the PendingLoadedEvents counter behind busy() goes up by one per loaded insertion, is left alone by DivideRounds, DecideFame and DecideRoundReceived and comes down only by the loaded events of a processed frame (busy_counter_follows_the_events, operational model; the Go counter is compared with it after every insertion).")
 _amend("C05", "every committed transaction comes from an event of the frame (C04).",
